@@ -279,7 +279,7 @@ func c03InjectBody(kind string) (typ byte, body []byte) {
 }
 
 func TestVF_C03(t *testing.T) {
-	rec := vfRec("C03", "C03-tamper", "one man-in-the-middle edit per handshake, addressed on-line as (direction, record, offset): flip of every byte of every record x masks 01,80,FF, drop / duplicate / adjacent swap of records, truncation at record boundaries and inside records, injection of 6 record kinds before each record, an unknown extension appended / prepended to each hello with all lengths fixed up (datagram stack: also datagram drop / duplicate / delay / truncation); scenarios {full,resumed} x 4 suites x client auth; oracle: both endpoints complete only with identical views equal to the untampered negotiation and Finished values that an independent PRF reproduces from the messages as sent; non-trivial = edit applied; distinct = (scenario, edit)")
+	rec := vfRec("C03", "C03-tamper", "one man-in-the-middle edit per handshake, addressed on-line as (direction, record, offset): flip of every byte of every record x masks 01,80,FF, drop / duplicate / adjacent swap of records, truncation at record boundaries and inside records, injection of 6 record kinds before each record, an unknown extension appended / prepended to each hello with all lengths fixed up, (stream stack) each handshake record re-framed into two with the first carrying 1..4 bytes or half (datagram stack: also datagram drop / duplicate / delay / truncation); scenarios {full,resumed} x 4 suites x client auth; oracle: both endpoints complete only with identical views equal to the untampered negotiation and Finished values that an independent PRF reproduces from the messages as sent; non-trivial = edit applied; distinct = (scenario, edit)")
 	scs := c03Scenarios()
 	masks := []byte{0x01, 0x80, 0xFF}
 	idx := 0
@@ -318,7 +318,10 @@ func TestVF_C03(t *testing.T) {
 				}
 				structural = append(structural, c03StackEdits(base, dir, ri)...)
 				if light {
-					structural = nil
+					structural = c03StackEdits(base, dir, ri)
+					if vfStack == "dtlcp" {
+						structural = nil
+					}
 				}
 				if ri < 3 {
 					structural = append(structural, c03Edit{Kind: "addext", Dir: dir, Rec: ri, Off: 0}, c03Edit{Kind: "addext", Dir: dir, Rec: ri, Off: 1})
@@ -371,6 +374,8 @@ func TestVF_C03(t *testing.T) {
 		case "addext":
 			e.Rec = rapid.IntRange(0, 2).Draw(t, "helloRec")
 			e.Off = rapid.IntRange(0, 1).Draw(t, "prepend")
+		case "reframe":
+			e.Off = rapid.IntRange(1, 5).Draw(t, "first")
 		}
 		c := c03Case{Sc: sc, Edit: e}
 		run(c, func(sig, msg string) { rec.Fail(t, sig, c, "%s", msg) })
